@@ -412,7 +412,7 @@ def rv_term(bf, rv):
 def report_exits(c, res, bf, fname, st, ok_exits_matter=True):
     """every exit site (the block assigning _0) reachable in state 'no increment yet'"""
     body = bf.body
-    exits = {e['bb']: e for e in err_exits(bf)}
+    exits = {e['bb']: e for e in err_exits(bf, trace_explicit=True)}
     # error exits
     for bb, e in sorted(exits.items()):
         if False in st.get(bb, set()):
